@@ -32,6 +32,33 @@ def addParent (o : Onto) (parent child : Nat) : Res Onto :=
     | some _ =>
       .ok { o with terms := modT (modT o.terms parent (·.addChild child)) child (·.addParent parent) }
 
+/-- `add_parent` as the sequence of look-ups and in-place mutations the code performs, returning
+the builder as it is left behind together with the result (this is what makes "an `Err` leaves the
+builder unchanged" a statement with content). As fixed: the child is looked up first. -/
+def addParentSt (o : Onto) (parent child : Nat) : Onto × Res Unit :=
+  match o.get child with
+  | none => (o, .err .doesNotExist)
+  | some _ =>
+    match o.get parent with
+    | none => (o, .err .doesNotExist)
+    | some _ =>
+      match ({ o with terms := modT o.terms parent (·.addChild child) } : Onto).get child with
+      | none => ({ o with terms := modT o.terms parent (·.addChild child) }, .err .doesNotExist)
+      | some _ =>
+        ({ o with terms := modT (modT o.terms parent (·.addChild child)) child (·.addParent parent) },
+         .ok ())
+
+/-- the pinned code before the `fix:` commit: the parent is mutated before the child is looked up -/
+def addParentStPrefix (o : Onto) (parent child : Nat) : Onto × Res Unit :=
+  match o.get parent with
+  | none => (o, .err .doesNotExist)
+  | some _ =>
+    match ({ o with terms := modT o.terms parent (·.addChild child) } : Onto).get child with
+    | none => ({ o with terms := modT o.terms parent (·.addChild child) }, .err .doesNotExist)
+    | some _ =>
+      ({ o with terms := modT (modT o.terms parent (·.addChild child)) child (·.addParent parent) },
+       .ok ())
+
 /-- `add_parent_unchecked`: `get_unchecked_mut` on both (slot 0 if absent, panic beyond the table). -/
 def addParentUnchecked (o : Onto) (parent child : Nat) : Option Onto :=
   (o.modUnchecked parent (·.addChild child)).bind fun o' => o'.modUnchecked child (·.addParent parent)
@@ -84,22 +111,43 @@ def link (k : Kind) (r : Nat) : Nat → Onto → Nat → Res Onto
     match o.get t with
     | none => .err .doesNotExist
     | some tm =>
-      let ins := Group.insert (tm.ann k) r
-      if ins.2 then
-        let o' := { o with terms := modT o.terms t (fun x => x.setAnn k ins.1) }
-        linkFold (link k r fuel) tm.allParents o'
+      if (Group.insert (tm.ann k) r).2 then
+        linkFold (link k r fuel) tm.allParents
+          { o with terms := modT o.terms t (fun x => x.setAnn k (Group.insert (tm.ann k) r).1) }
       else .ok o
 
 def linkFuel (o : Onto) : Nat := o.terms.length + 2
+
+/-- `add_gene(name, id)` (vacant only) followed by `record.add_term(term)` -/
+def addTermToRec (o : Onto) (k : Kind) (name : List Char) (rid t : Nat) : Onto :=
+  (o.addRec k name rid).setRecs k
+    (modR ((o.addRec k name rid).recs k) rid (fun r => { r with hpos := (Group.insert r.hpos t).1 }))
 
 /-- `annotate_gene` etc. (with the existence check of the `fix:` commit first) -/
 def annotate (o : Onto) (k : Kind) (rid : Nat) (name : List Char) (t : Nat) : Res Onto :=
   match o.get t with
   | none => .err .doesNotExist
   | some _ =>
-    let o1 := o.addRec k name rid
-    let o2 := o1.setRecs k (modR (o1.recs k) rid (fun r => { r with hpos := (Group.insert r.hpos t).1 }))
-    link k rid o2.linkFuel o2 t
+    link k rid (o.addTermToRec k name rid t).linkFuel (o.addTermToRec k name rid t) t
+
+/-- `annotate_*` as look-ups and in-place mutations (as fixed: the term is looked up first) -/
+def annotateSt (o : Onto) (k : Kind) (rid : Nat) (name : List Char) (t : Nat) : Onto × Res Unit :=
+  match o.get t with
+  | none => (o, .err .doesNotExist)
+  | some _ =>
+    match link k rid (o.addTermToRec k name rid t).linkFuel (o.addTermToRec k name rid t) t with
+    | .ok o' => (o', .ok ())
+    | .err e => (o.addTermToRec k name rid t, .err e)
+    | .panic => (o.addTermToRec k name rid t, .panic)
+    | .diverge => (o.addTermToRec k name rid t, .diverge)
+
+/-- the pinned code before the `fix:` commit: record created and term added before the look-up -/
+def annotateStPrefix (o : Onto) (k : Kind) (rid : Nat) (name : List Char) (t : Nat) : Onto × Res Unit :=
+  match link k rid (o.addTermToRec k name rid t).linkFuel (o.addTermToRec k name rid t) t with
+  | .ok o' => (o', .ok ())
+  | .err e => (o.addTermToRec k name rid t, .err e)
+  | .panic => (o.addTermToRec k name rid t, .panic)
+  | .diverge => (o.addTermToRec k name rid t, .diverge)
 
 /-! ### information content -/
 
